@@ -6,7 +6,9 @@
 (* strings of length <= 2.  Every state is one database: at most MaxUnits  *)
 (* units (each a base unit or a dimensionless constant) and at most        *)
 (* MaxPrefixes prefixes (each short `p--` or long `p-`; a long prefix is   *)
-(* also a unit of the same name, as in load.rs).  Values are distinct      *)
+(* also a unit of the same name, as in load.rs), and with MaxAlias = 1 one  *)
+(* more unit defined as an alias `x t` of a name t that has exactly one    *)
+(* exact or prefix + exact reading.  Values are distinct                   *)
 (* primes (unit i -> UPrime[i], prefix i -> PPrime[i]) so that the         *)
 (* denotation identifies the reading.  In every database every query       *)
 (* string of length <= MaxLen is resolved: the theorems are invariants,    *)
@@ -15,9 +17,11 @@
 (***************************************************************************)
 EXTENDS Names, TLC, Json
 
-CONSTANTS MaxUnits, MaxPrefixes, MaxLen, KindMode    \* KindMode: "all" | "parity" (kind fixed by the name)
+CONSTANTS MaxUnits, MaxPrefixes, MaxLen, KindMode,   \* KindMode: "all" | "parity" (kind fixed by the name)
+          MaxAlias                                   \* 0 | 1: one more unit defined as an alias `x t` of a name t
 
-VARIABLES us, ps      \* sequences of [i, k], ascending in i
+VARIABLES us, ps,     \* sequences of [i, k], ascending in i
+          al          \* <<>> or <<[i, t]>>: unit NameOf[i] is defined as the bare name t (added last)
 
 L == {97, 98, 115}
 NameOf == <<<<97>>, <<98>>, <<115>>,
@@ -30,34 +34,31 @@ NN == 1..12
 Strs(k) == [1..k -> L]
 Queries == UNION {Strs(k) : k \in 1..MaxLen}
 
-Init == us = <<>> /\ ps = <<>>
+Init == us = <<>> /\ ps = <<>> /\ al = <<>>
 
 AddUnit(i, k) ==
-  /\ ps = <<>> /\ Len(us) < MaxUnits
+  /\ ps = <<>> /\ al = <<>> /\ Len(us) < MaxUnits
   /\ (IF us = <<>> THEN TRUE ELSE us[Len(us)].i < i)
   /\ (KindMode = "parity" => k = (IF i % 2 = 1 THEN "base" ELSE "const"))
-  /\ us' = Append(us, [i |-> i, k |-> k]) /\ UNCHANGED ps
+  /\ us' = Append(us, [i |-> i, k |-> k]) /\ UNCHANGED <<ps, al>>
 
 \* a long prefix is entered into `units` under its own name: keep it apart from the unit names so that the
 \* database does not depend on the loader's order of insertion (that is C08/C12's subject, not C07's)
 AddPrefix(i, k) ==
-  /\ Len(ps) < MaxPrefixes
+  /\ al = <<>> /\ Len(ps) < MaxPrefixes
   /\ (IF ps = <<>> THEN TRUE ELSE ps[Len(ps)].i < i)
   /\ (k = "long" => \A j \in DOMAIN us : us[j].i # i)
   /\ (KindMode = "parity" => k = (IF i % 3 = 0 THEN "long" ELSE "short"))
-  /\ ps' = Append(ps, [i |-> i, k |-> k]) /\ UNCHANGED us
+  /\ ps' = Append(ps, [i |-> i, k |-> k]) /\ UNCHANGED <<us, al>>
 
 AddBase == \E i \in NN : AddUnit(i, "base")
 AddConst == \E i \in NN : AddUnit(i, "const")
 AddShort == \E i \in NN : AddPrefix(i, "short")
 AddLong == \E i \in NN : AddPrefix(i, "long")
-Next == AddBase \/ AddConst \/ AddShort \/ AddLong
-Spec == Init /\ [][Next]_<<us, ps>>
-
 Num(k) == VNum(QFromInt(k), DEmpty)
 
-\* the registry this definitions text denotes, with the prefixes in the order `ord` (a permutation of DOMAIN ps)
-DbOrd(ord) ==
+\* the registry the definitions without the alias denote, with the prefixes in the order `ord` (a permutation of DOMAIN ps)
+DbBase(ord) ==
   LET consts == {j \in DOMAIN us : us[j].k = "const"}
       longs == {j \in DOMAIN ps : ps[j].k = "long"}
       unames == {NameOf[us[j].i] : j \in consts} \cup {NameOf[ps[j].i] : j \in longs}
@@ -71,6 +72,33 @@ DbOrd(ord) ==
 
 Ident == [j \in DOMAIN ps |-> j]
 Orders == {f \in [DOMAIN ps -> DOMAIN ps] : \A a, b \in DOMAIN ps : f[a] = f[b] => a = b}
+
+\* an alias `x t`: x is a new name, t (length <= 2, not x) has exactly one admissible reading, and that reading is
+\* exact or prefix + exact (the loader resolves t the same way; a plural or ambiguous t is left to C08/C12).
+\* The alias is the last definition added, so every database is reached once.
+AliasValue(db, t) == Den(db, CHOOSE r \in Readings(db, t) : TRUE)
+WithAlias(db) ==
+  IF al = <<>> THEN db
+  ELSE [db EXCEPT !.units = [n \in DOMAIN db.units \cup {NameOf[al[1].i]} |->
+                               IF n = NameOf[al[1].i] THEN AliasValue(db, al[1].t) ELSE db.units[n]]]
+AddAlias(i, t) ==
+  /\ al = <<>> /\ MaxAlias > 0
+  /\ \A j \in DOMAIN us : us[j].i # i
+  /\ \A j \in DOMAIN ps : ps[j].k = "long" => ps[j].i # i
+  /\ t # NameOf[i]
+  /\ \E db \in {DbBase(Ident)} :
+       /\ Cardinality(Readings(db, t)) = 1
+       /\ \A r \in Readings(db, t) : r.cls <= 1
+       /\ \E dba \in {[db EXCEPT !.units = [n \in DOMAIN db.units \cup {NameOf[i]} |->
+                                               IF n = NameOf[i] THEN AliasValue(db, t) ELSE db.units[n]]]} :
+            Readings(dba, t) = Readings(db, t)            \* the new name does not open a second reading of t
+  /\ al' = <<[i |-> i, t |-> t]>> /\ UNCHANGED <<us, ps>>
+AddAnAlias == \E i \in NN, t \in Strs(1) \cup Strs(2) : AddAlias(i, t)
+
+Next == AddBase \/ AddConst \/ AddShort \/ AddLong \/ AddAnAlias
+Spec == Init /\ [][Next]_<<us, ps, al>>
+
+DbOrd(ord) == WithAlias(DbBase(ord))
 Db == DbOrd(Ident)
 
 \* (db and the candidate names are bound once: TLC re-evaluates definitions at every use)
@@ -91,6 +119,7 @@ Flat(val) == [v |-> QToNative(val.v), d |-> IF DIsEmpty(val.d) THEN <<>> ELSE CH
 
 CaseOf(db) ==
   [units |-> [j \in DOMAIN us |-> [name |-> NameOf[us[j].i], k |-> us[j].k, v |-> UPrime[us[j].i]]],
+   alias |-> [j \in DOMAIN al |-> [name |-> NameOf[al[j].i], t |-> al[j].t, den |-> Flat(db.units[NameOf[al[j].i]])]],
    prefixes |-> [j \in DOMAIN ps |-> [name |-> NameOf[ps[j].i], k |-> ps[j].k, v |-> PPrime[ps[j].i]]],
    hits |-> {[name |-> n, adm |-> {Flat(Den(db, r)) : r \in Readings(db, n)},
               ncand |-> Cardinality(CandidateReadings(db, n))] :
